@@ -5,31 +5,42 @@ import vlib
 MANIFEST = dict(
     module="Pkg", ref="§5 C01",
     text="Pkg.tla is the whole-package machine: the package as an independent reader sees it (entries, content-type defaults and "
-         "overrides, package relationships, per part: kind, extension, XML-ness, well-formedness, content type), which call wrote "
-         "which part, and one pure Apply per public operation - document/table/image/header/footer/footnote/endnote/list/TOC/"
-         "properties/math/style API, document-template rendering (both entry points), text-template rendering, Markdown conversion "
-         "(ConvertString and ConvertFile), Reopen, Save and ToBytes - over argument classes (twelve text classes incl. XML "
-         "metacharacters, ]]>, control characters with NUL/VT, non-characters and invalid UTF-8, astral, CJK, empty, whitespace, "
-         "template braces, 64 KiB; five image-format classes x fifteen original-file-name classes). C01 is the witness set "
-         "Viol_C01 (zip readable, no duplicate entry, content types and package relationships present, exactly one officeDocument "
-         "relationship whose target exists, every XML part well-formed incl. the XML 1.0 Char production, every part has a content "
-         "type). TLC model-checks the reference machine (Inv_C01, shape, frame/growth/content-type action properties; the pinned "
-         "tree's name-by-original-extension design must violate Inv_C01), generates every operation x every argument class, every "
-         "pair / triple of the core alphabets and seeded random long behaviours; each is executed on the real library, written "
-         "through alternating save entry points after every step (and, in a second pass, only where the behaviour saves), read by "
-         "the independent ZIP/XML reader and judged step by step by Pkg_Trace.tla, which charges a new violation to the call and "
-         "argument class that introduced it.",
+         "overrides, package relationships, per part: kind, extension, XML-ness, well-formedness, content type), the origin of the "
+         "document object (new / opened / rendered / text template / Markdown), which call wrote which part, and one pure Apply per "
+         "public operation - document/table/image/header/footer/footnote/endnote/list/TOC/properties/math/style API (incl. EditStyle: "
+         "six kinds of in-place edit of a style the style manager already holds), document-template rendering (three entry points: "
+         "from the document object, legacy, and from a file the renderer opens itself), text-template rendering, Markdown conversion "
+         "(ConvertString and ConvertFile), Save, ToBytes and Reopen through eleven spellings another producer may give the saved "
+         "package (as is; relationship targets absolute / with a dot segment / with a parent segment; package streams with a namespace "
+         "prefix; every part typed by Override; every XML part re-serialised; the minimal package without styles and properties; "
+         "other entry order, stored; directory entries; additional parts the library has no model of) - over argument classes (twelve "
+         "text classes incl. XML metacharacters, ]]>, control characters with NUL/VT, non-characters and invalid UTF-8, astral, CJK, "
+         "empty, whitespace, template braces, 64 KiB; five image-format classes x fifteen original-file-name classes). C01 is the "
+         "witness set Viol_C01 (zip readable, no duplicate entry, content types and package relationships present and in their OPC "
+         "namespace, exactly one officeDocument relationship whose target exists, every XML part well-formed incl. the XML 1.0 Char "
+         "production, every part has a content type). TLC model-checks the reference machine (Inv_C01, shape, origin, frame/growth/"
+         "content-type/reopen/style action properties; the pinned tree's name-by-original-extension design must violate Inv_C01), "
+         "generates every operation x every argument class, every pair / triple of the core alphabets, every pair of style-manager "
+         "calls on an opened document, every content call followed by a reopen through every spelling, and seeded random long "
+         "behaviours; each is executed on the real library, written through alternating save entry points after every step (and, in a "
+         "second pass, only where the behaviour saves), read by the independent ZIP/XML reader and judged step by step by "
+         "Pkg_Trace.tla, which first checks that the package handed to Reopen satisfies the property itself and then charges a new "
+         "violation to the call and argument class that introduced it (lazy pass: to the call that last wrote the part and the origin "
+         "of the document).",
     technique="TLA+ spec Pkg; TLC exhaustive model checking of the reference machine + TLC-generated behaviours (BFS over op x "
               "argument class, pairs, triples; -simulate long ones) replayed on the library + TLC trace judge (Pkg_Trace.tla)",
 )
 
 LEVEL = "model_checking"
 RULE = ("behaviours = TLC-enumerated operation sequences of Pkg_MC.tla: every operation of the alphabet x every argument class "
-        "(depth 1; Render after the template-content step), every pair over the core alphabet, every triple over the small alphabet, "
-        "plus seeded random long ones over the whole alphabet; each is executed on the real library; after every step the document "
-        "is written through Save or ToBytes (alternating; ConvertFile's own output where the step is ConvertFile) and the bytes are "
-        "projected by the independent reader; a second, lazy pass writes only where the behaviour saves and at its end; "
-        "Pkg_Trace.tla evaluates Viol_C01 on every observed package and charges what is new to the step's call")
+        "(depth 1; Render after the template-content step; Reopen through every spelling x both open entry points), every pair over the "
+        "core alphabet, every triple over the small alphabet, a reopen followed by every pair over the style alphabet (every kind of "
+        "in-place style edit), every content call followed by a reopen through every spelling, plus seeded random long ones over the "
+        "whole alphabet; each is executed on the real library; after every step the document is written through Save or ToBytes "
+        "(alternating; ConvertFile's own output where the step is ConvertFile) and the bytes are projected by the independent reader; a "
+        "second, lazy pass writes only where the behaviour saves and at its end; the package a Reopen hands to the library is projected "
+        "as well and must satisfy Viol_C01 = {} itself (otherwise the run is a machinery failure, not a verdict); Pkg_Trace.tla "
+        "evaluates Viol_C01 on every observed package and charges what is new to the step's call")
 
 ASSUMPTIONS = [
     "XML-ness of a part: extension xml/rels or a content type ending +xml or /xml; well-formedness: strict encoding/xml token walk "
@@ -43,6 +54,15 @@ ASSUMPTIONS = [
     "image format classes: the three declared ImageFormat constants, a value outside them (\"bmp\" with BMP bytes) and the zero value "
     "(\"\" with PNG bytes); ImageFormat is an open string type, so a call with such a value that returns nil is a successful call",
     "Markdown sources and template texts carry the text class verbatim (raw bytes incl. NUL and invalid UTF-8)",
+    "the content-types stream and _rels/.rels are read namespace-aware at their root: a well-formed stream whose root is not "
+    "{content-types}Types / {relationships}Relationships declares nothing and is reported as 'foreign' (a violation); all other "
+    "parts are only required to be well-formed",
+    "spellings of the package fed to Reopen are produced by the harness from the bytes the library saved and keep its meaning; "
+    "UTF-16 / BOM encodings of package streams and percent-encoded or case-variant part names are not generated (the independent "
+    "reader does not resolve them); ZIP directory entries are not parts; spelling 'min' drops the parts nothing in the body refers "
+    "to (styles, document properties) - the library may write them again",
+    "EditStyle edits one of the predefined styles (or the style AddStyle added last) through the pointer GetStyle returns, or hands "
+    "a new definition with the same id to AddStyle; where the manager holds none of the candidates the step is skipped",
 ]
 
 TEXTS = ["plain", "xmlmeta", "cdataend", "ctrl", "nonchar", "astral", "cjk", "empty", "ws", "edgews", "braces", "long"]
@@ -51,6 +71,9 @@ FMTS = ["png", "jpeg", "gif", "other", "unset"]
 NAMES = ["png", "jpg", "jpeg", "JPG", "gif", "noext", "dot", "multi", "cjk", "space", "meta", "mislead", "empty", "path", "ctrl"]
 TKS = ["var", "cond", "loop", "block", "image", "literal", "all"]
 MKS = ["para", "heading", "list", "task", "table", "code", "quote", "inline", "image", "math", "footnote", "html", "all"]
+SPELLS = ["asis", "abs", "dot", "updir", "qual", "ovr", "xmlser", "min", "order", "dirs", "extra"]
+SPELLS_R = ["abs", "xmlser", "extra", "min", "qual", "updir", "ovr", "dirs", "dot", "order", "asis"]      # rotation order of the narrowed plans
+STYLE_EDS = ["name", "run", "para", "strip", "rebase", "readd"]
 PAGES = ["SetPageSettings", "SetPageSize", "SetCustomPageSize", "SetPageOrientation", "SetPageMargins",
          "SetHeaderFooterDistance", "SetGutterWidth", "SetDocGrid", "ClearDocGrid", "GetPageSettings"]
 
@@ -64,11 +87,12 @@ HF = ["AddHeader", "AddFooter", "AddHeaderWithPageNumber", "AddFooterWithPageNum
 PLAIN = ["AddPageBreak", "RestartNumbering", "RemoveFootnote", "SetFootnoteConfig", "UpdateTOC", "TableMerge", "RemoveParagraphAt",
          "SetDifferentFirstPage", "UpdateStatistics", "GetDocumentProperties", "RemoveStyle", "AddTemplateBits"]
 ALLOPS = (BODY_TEXT + LISTS + NOTES + PROPS + ["AddImageText", "SetFootnoteFormat"] + HF + ["AddImage", "AddCellImage"] + PLAIN +
-          ["Save", "ToBytes", "AddStyle", "PageSet", "Reopen", "Render", "RenderText", "ConvertMd"])
+          ["Save", "ToBytes", "AddStyle", "EditStyle", "PageSet", "Reopen", "Render", "RenderText", "ConvertMd"])
 
 WIDE = dict(TextC=set(TEXTS), KindC={"default", "first", "even"}, FmtC=set(FMTS), NameC=set(NAMES),
             ImgViaC={"data", "file", "noelem"}, CellViaC={"data", "file", "cfg"}, StyleViaC={"custom", "quick", "add"},
-            PageC=set(PAGES), ReopenC={"mem", "file"}, RenderViaC={"doc", "legacy"}, RenderImgC={"none", "png", "jpeg", "gif"}, PrepC={True},
+            PageC=set(PAGES), ReopenC={"mem", "file"}, SpellC=set(SPELLS), StyleEdC=set(STYLE_EDS),
+            RenderViaC={"doc", "legacy", "file"}, RenderImgC={"none", "png", "jpeg", "gif"}, PrepC={True},
             TkC=set(TKS), MkC=set(MKS), MdViaC={"string", "file"})
 
 
@@ -81,7 +105,7 @@ def small(seed, **over):
     a = dict(TextC=rot(HOSTILE, seed), KindC=rot(["default", "first", "even"], seed), FmtC=rot(FMTS, seed),
              NameC=rot(NAMES, seed), ImgViaC=rot(["data", "file", "noelem"], seed), CellViaC=rot(["data", "file", "cfg"], seed),
              StyleViaC=rot(["custom", "quick", "add"], seed), PageC=rot(PAGES, seed), ReopenC=rot(["mem", "file"], seed),
-             RenderViaC=rot(["doc", "legacy"], seed), RenderImgC=rot(["png", "none", "jpeg", "gif"], seed), PrepC={False},
+             SpellC=rot(SPELLS_R, seed), StyleEdC=rot(STYLE_EDS, seed), RenderViaC=rot(["doc", "legacy", "file"], seed), RenderImgC=rot(["png", "none", "jpeg", "gif"], seed), PrepC={False},
              TkC=rot(TKS, seed), MkC=rot(MKS, seed), MdViaC=rot(["file", "string"], seed))
     a.update(over)
     return a
@@ -99,6 +123,10 @@ CORE = ["AddParagraph", "AddHeading", "AddMathFormula", "AddListItem", "AddFootn
         "AddTemplateBits", "Render", "RenderText", "ConvertMd", "Reopen", "Save", "ToBytes", "RemoveParagraphAt", "UpdateTOC"]
 CORE_Q = [o for o in CORE if o not in ("RemoveStyle", "UpdateTOC", "RemoveParagraphAt", "PageSet", "GenerateTOC", "UpdateStatistics")]
 SMALL = ["AddHeader", "AddImage", "AddFootnote", "SetTitle", "AddTemplateBits", "Render", "Reopen"]
+STYLE_OPS = ["Reopen", "EditStyle", "AddStyle", "RemoveStyle", "SetParaStyle", "AddHeading", "Render"]
+SPELL_PRE = ["AddParagraph", "AddHeader", "AddFooterWithPageNumber", "AddImage", "AddCellImage", "AddFootnote", "AddEndnote", "AddListItem",
+             "SetTitle", "AddStyle", "AddTable", "SetFootnoteConfig", "AddTemplateBits", "ConvertMd", "RenderText", "Render"]
+SPELL_MID = ["AddHeader", "AddImage", "AddFootnote", "SetTitle", "AddStyle", "EditStyle", "AddListItem", "Render", "ToBytes"]
 SMALL_T = SMALL + ["AddParagraph", "ToBytes", "AddListItem", "AddEndnote", "RenderText", "Save", "AddCellImage"]
 
 
@@ -112,6 +140,11 @@ def plans(seed, q):
         ("pairs", CORE_Q if q else CORE, small(seed), 2, (), (), not q),
         # every triple over the small alphabet
         ("triples", SMALL if q else SMALL_T, small(seed + 1), 3, (), (), True),
+        # a document read back from a package (its parts are preserved and edits are spliced into them), then every pair of
+        # style-manager calls (every kind of in-place edit), written once at the end (lazy pass) and after every call (eager)
+        ("styles", STYLE_OPS, small(seed, StyleEdC=set(STYLE_EDS), PrepC={True}), 3, ("Reopen",), (), True),
+        # every content call, then a reopen through every spelling another producer may give the package
+        ("spell", SPELL_PRE + ["Reopen"], small(seed + 2, SpellC=set(SPELLS)), 2, SPELL_PRE, ("Reopen",), False),
     ]
     if not q:
         P += [
@@ -122,6 +155,12 @@ def plans(seed, q):
             ("pairs3", [o for o in ALLOPS if o not in CORE] + ["Reopen", "Render", "ToBytes"], small(seed + 3), 2, (), (), True),
             ("imgpairs", ["AddImage", "AddCellImage", "Reopen", "Render", "AddTemplateBits"],
              small(seed, FmtC=set(FMTS), NameC=rot(NAMES, seed, 3), ImgViaC={"data", "file"}), 2, (), (), False),
+            # content, reopen through every spelling, content again (both passes)
+            ("spell3", SPELL_MID + ["Reopen"], small(seed + 1, SpellC=set(SPELLS)), 3, SPELL_MID, SPELL_MID, True),
+            # reopened through a spelling, then every pair of content calls / further reopens
+            ("spell3b", SPELL_MID + ["Reopen"], small(seed + 3, SpellC=rot(SPELLS_R, seed, 4)), 3, ("Reopen",), (), True),
+            # four calls on an opened document over the style alphabet and both save entry points
+            ("styles4", STYLE_OPS + ["ToBytes"], small(seed + 1, StyleEdC=rot(STYLE_EDS, seed, 3), PrepC={True}), 4, ("Reopen",), (), True),
             ("quads", ["AddHeader", "AddImage", "AddFootnote", "Render", "Reopen", "AddTemplateBits", "ConvertMd"], small(seed + 4), 4, (), (), False),
         ]
     return P
@@ -137,10 +176,22 @@ def execute(ctx, cases, tag):
             dev.append(w["sig"])
         if w["sig"][0] == "N01" and w["sig"] not in notes:
             notes.append(w["sig"])
+        if w["sig"][0] == "X01":
+            FAULTS.append("%s (case %s, %s)" % (w["sig"], w["case"], w["tag"]))
     return res
 
 
 CHUNK = 4000
+FAULTS = []
+
+
+def verdict(ctx):
+    """The package a Reopen handed to the library must satisfy the property itself (X01 otherwise): on a tree that shows no
+    violation such a step means the respelling machinery is broken, and the run must not pass for it."""
+    rc = ctx.finish(LEVEL, RULE)
+    if rc == 0 and FAULTS:
+        raise vlib.Machinery("Reopen was fed a package that violates C01 itself: " + "; ".join(FAULTS[:5]))
+    return rc
 
 
 def pipeline(ctx, replay_case=None):
@@ -154,7 +205,7 @@ def pipeline(ctx, replay_case=None):
     ctx.extra_cov["non_vacuity"] = "Pkg_MC_byname_cex.cfg (Design = byname, the pinned tree's media naming): TLC reports Inv_C01 violated"
     if replay_case is not None:
         execute(ctx, [replay_case], "replay")
-        return ctx.finish(LEVEL, RULE)
+        return verdict(ctx)
     cnt = collections.Counter()
     cls = collections.Counter()
     allc, bounds = [], {}
@@ -176,7 +227,8 @@ def pipeline(ctx, replay_case=None):
     for k in range(1 if q else 4):
         r = ctx.seed + k
         pools = small(r, TextC=rot(TEXTS, r, 2) | rot(HOSTILE, r), FmtC=rot(FMTS, r, 2), NameC=rot(NAMES, r, 2),
-                      KindC={"default", "first", "even"}, RenderImgC={"none", "png"}, ReopenC={"mem", "file"}, PrepC={True, False})
+                      KindC={"default", "first", "even"}, RenderImgC={"none", "png"}, ReopenC={"mem", "file"}, PrepC={True, False},
+                      SpellC=rot(SPELLS_R, r, 2), StyleEdC=rot(STYLE_EDS, r, 2))
         cs = ctx.tlc_gen("Pkg_MC.tla", gencfg(ctx, "gen_sim%d.cfg" % k, ALLOPS, pools, d, last=["ToBytes", "Save"]),
                          "sim%d" % k, mode="sim", num=20 if q else 100, depth=d + 1, seed_off=k, limit=40 if q else 300)
         for c in cs:
@@ -198,7 +250,7 @@ def pipeline(ctx, replay_case=None):
     ctx.extra_cov["class_counts"] = dict(cls)
     ctx.extra_cov["exhaustive_over"] = ("operation x argument class (depth 1), pairs of the core alphabet, triples of the small "
                                          "alphabet, for the rotated argument classes listed under bounds")
-    return ctx.finish(LEVEL, RULE)
+    return verdict(ctx)
 
 
 def run(ctx):
